@@ -16,19 +16,20 @@ if os.path.exists(mt):
         parts = l.rstrip('\n').split('\t')
         if len(parts) >= 2:
             matrix[parts[0]] = parts[1]
-n1 = sum(1 for n, _ in rows if n.endswith('-a'))
-n2 = [m for n, m in rows if n.endswith('-b')]
-missed = sum(1 for m in n2 if m.get('detection', '').startswith('MISSED'))
+def stats(suffix):
+    ms = [m for n, m in rows if n.endswith(suffix)]
+    missed = sum(1 for m in ms if m.get('detection', '').startswith('MISSED'))
+    return len(ms), missed
 out = ["## Seeded changes and the checks that catch them\n\n",
  f"{len(rows)} changes written by independent sub-agents (rounds of twenty: one per property and round;\n"
  "later rounds were asked for deep triggers and for a mechanism different from the earlier ones).\n"
  "All were confirmed (`tools/seeded.sh verify`) to compile, to pass the repository's 82 unit tests and\n"
  "doc tests, and to fail their author's demonstration. \"own check\" is the quick check of the property\n"
  "the change was written against; \"all quick checks that alarm\" comes from `tools/seeded_matrix.sh`\n"
- "(`seeded/matrix.tsv`) where it has been run. Round 1 (`-a`): all caught by the own check as built.\n"
- f"Round 2 (`-b`): {len(n2) - missed} caught as built, {missed} missed at first; each miss led to a widening of\n"
- "the check's domain (never to a special case for the seeded input), after which all are caught and\n"
- "the unchanged tree is still silent.\n\n",
+ "(`seeded/matrix.tsv`) where it has been run.\n\n"
+ + "".join(f"Round `{sfx}`: {stats(sfx)[0]} changes, {stats(sfx)[0] - stats(sfx)[1]} caught as built, {stats(sfx)[1]} missed at first.\n" for sfx in ['-a', '-b', '-c'] if stats(sfx)[0])
+ + "\nEach miss led to a widening of a check's domain or oracle (never to a special case for the seeded\n"
+ "input), after which every change is caught and the unchanged tree is still silent.\n\n",
  "| seeded | change (what it needs to manifest) | own check | all quick checks that alarm |\n|---|---|---|---|\n"]
 for name, m in rows:
     det = m.get('detection', 'caught as built')
